@@ -64,6 +64,7 @@ def run(ctx, progs):
     ctx.rule("ZST1", "no size_of/align_of/offset_from/needs_drop/byte arithmetic")
     ctx.rule("LEN1", "size stores of reviewed shape; no Mul/Shl/Div on lengths")
     ctx.rule("ARITH1", "no Add/Mul on caller-supplied indices/lengths (usize::MAX arguments) outside reviewed sites")
+    ctx.rule("SUB1", "REQUIRES(b <= a) of every usize subtraction a - b discharged by guard facts / INV / callers (transparent operands)")
     for cfg, prog in progs.items():
         pos1(ctx, prog, cfg)
         eng = shared.run_mod1(prog)
@@ -73,6 +74,9 @@ def run(ctx, progs):
         from . import c11
 
         c11.arith1(ctx, prog, cfg)
+        from .. import subrule
+
+        subrule.report(ctx, prog, cfg)
 
 
 def pos1(ctx, prog, cfg):
